@@ -20,6 +20,25 @@ ASSUMPTIONS = ["std::chrono::steady_clock is monotonic",
 GATE = ("steady_clock::now()", "pause_actions_until_")
 
 
+def pause_field_writers(ctx):
+    """Each ruleset object's pause belongs to it alone: the deadline and the override flag are written only by run_action_chain (STOP)
+    and pause_actions of that object (shared by C05, C06 and C11: instances pause and resume independently)."""
+    P = ctx.prog
+    pause = ctx.fn1("Oomd::Engine::Ruleset::pause_actions")
+    # who writes the pause fields at all
+    for f in P.fns.values():
+        if f.pq in ("Oomd::Engine::Ruleset::run_action_chain", "Oomd::Engine::Ruleset::pause_actions"):
+            continue
+        if f.kind == "ctor" and f.cls.endswith("Ruleset"):
+            continue
+        for fld in ("pause_actions_until_", "plugin_overrode_post_action_delay_"):
+            for i in field_writes(f, fld):
+                ctx.violation("pause-field-writer:%s:%s" % (short(f), fld), "who-may-write", f.loc(i),
+                              "%s written outside run_action_chain/pause_actions" % fld)
+    ctx.ok("pause-field-writers", "who-may-write", pause.loc(), "pause fields written only by the two owners")
+
+
+
 def pause_value_rule(ctx):
     """The ruleset's own pause on STOP: steady now + seconds(post_action_delay_), the clock read after the stopping action returned
     (shared by C05 and C02's 'not inside its post-action pause')."""
@@ -161,17 +180,7 @@ def run(ctx):
         ctx.check("steady_clock::now()" in rhs and "duration" in rhs, "pause_actions-value",
                   "value-shape", pause.loc(i), "deadline = steady now + duration",
                   "deadline written from unexpected expression: " + rhs)
-    # who writes the pause fields at all
-    for f in P.fns.values():
-        if f.pq in ("Oomd::Engine::Ruleset::run_action_chain", "Oomd::Engine::Ruleset::pause_actions"):
-            continue
-        if f.kind == "ctor" and f.cls.endswith("Ruleset"):
-            continue
-        for fld in ("pause_actions_until_", "plugin_overrode_post_action_delay_"):
-            for i in field_writes(f, fld):
-                ctx.violation("pause-field-writer:%s:%s" % (short(f), fld), "who-may-write", f.loc(i),
-                              "%s written outside run_action_chain/pause_actions" % fld)
-    ctx.ok("pause-field-writers", "who-may-write", pause.loc(), "pause fields written only by the two owners")
+    pause_field_writers(ctx)
 
     # ---- R5 kill plugin: STOP path reaches its ruleset, callers of pause_actions return STOP
     for f, i in who_calls(P, "Ruleset::pause_actions"):
